@@ -1,6 +1,6 @@
 (* C03 -- parsing is total: value or error, never a panic; recursion bounded. *)
 From Coq Require Import SpecFloat.
-Require Import Base Value Float PrintOptions ParseOptions Reader Scan Num Parser DepthProofs DepthBoundProofs.
+Require Import Base Value Float PrintOptions ParseOptions Reader Scan Num Parser DepthProofs DepthBoundProofs FuelProofs FloatFuel.
 
 (* Reader-level code (scanners, escapes, numbers, tokens, whitespace, byte
    vectors, end_seq/expect_end) cannot panic by construction: its error type
@@ -48,6 +48,43 @@ Proof.
     intros v. apply good_bind; [apply good_liftR|intros; apply good_pret].
 Qed.
 Print Assumptions C03_from_trait_no_panic.
+
+(* Totality. The model's loops run on fuel; fuel_for hands out 3*|input|+600
+   units. For every option set, oracle, build, source kind and input - any
+   bytes, any interleaving of Interrupted results and read failures - the
+   entry points never report the model's own "out of fuel" outcome: every loop
+   and every recursive call of the parser consumes at least one delivered event
+   per unit of fuel it spends (the measure is the number of events left), and
+   the one loop that consumes nothing, the scaling by 1e308 in f64_from_parts,
+   stops after at most three rounds because a u64 divided twice by 1e308 is
+   zero in binary64 (Flocq). Together with C03_from_trait_no_panic: the result
+   is a value or an ordinary parse / I/O error. *)
+Theorem C03_total : forall ro alpha fast std_parse k inp,
+  (from_trait ro alpha fast std_parse k inp <> PErr (XErr EFuel) /\
+   no_panic (from_trait ro alpha fast std_parse k inp)) /\
+  (datum_from_trait ro alpha fast std_parse k inp <> PErr (XErr EFuel) /\
+   no_panic (datum_from_trait ro alpha fast std_parse k inp)).
+Proof.
+  intros ro alpha fast std_parse k inp.
+  destruct (total_from_trait ro alpha fast std_parse k inp) as [H1 H2].
+  destruct (C03_from_trait_no_panic ro alpha fast std_parse k inp) as [H3 H4].
+  exact (conj (conj H1 H3) (conj H2 H4)).
+Qed.
+Print Assumptions C03_total.
+
+(* The same for every history of API calls on one parser (next_value,
+   next_datum, expect_value, expect_datum, expect_end in any order, continuing
+   after errors): no call runs out of fuel, hence (C03_history) none panics -
+   the hypothesis of C03_history is discharged. *)
+Theorem C03_history_total : forall ro alpha fast std_parse k inp cs,
+  Forall (fun r => ~ call_fuel r) (run_history ro alpha fast std_parse (fuel_for inp) cs (init_state k inp)) /\
+  Forall call_ok (run_history ro alpha fast std_parse (fuel_for inp) cs (init_state k inp)).
+Proof.
+  intros ro alpha fast std_parse k inp cs.
+  pose proof (total_history ro alpha fast std_parse k inp cs) as H.
+  exact (conj H (C03_history ro alpha fast std_parse (fuel_for inp) k inp cs H)).
+Qed.
+Print Assumptions C03_history_total.
 
 (* Non-vacuity and the nesting limit on concrete inputs (default options, all
    three sources): 127 levels are accepted, 128 are rejected, for parentheses
